@@ -260,10 +260,16 @@ def oracle(R, history, impl):
                               {"id": mid, "kind": op[1], "first_reply": first, "first_reply_during_op": first_at,
                                "still_registered_in": registered_in,
                                "what": "the request was answered but its id is still registered"}))
-        else:   # keep-alive ping: its callbacks forward the reply upward, once
+        else:
+            # keep-alive ping: its callback is the iq layer's own onPong / onPingError.  What the property demands
+            # is observable through what they hand upward: the reply is forwarded by its FIRST delivery only, never
+            # by a replay, never twice; an error must be forwarded (else it reached no callback).  Whether the
+            # keep-alive's own pong is passed on to the application at all is the callback's business (the code as
+            # it is passes it on -- modelled, C08_libping_forwarded_once, compared by the correspondence -- where it
+            # arrives as an ordinary entity with an id the application never issued).
             got = [[q, e] for q, ev in enumerate(evs) for e in ev if q >= p and e[0] == "iface" and e[1] == mid]
             want = [[first_at, ["iface", mid, first]]] if first else []
-            if got != want:
+            if got != want and not (first == "result" and got == []):
                 fails.append(("libping-forwarding", "ping:error-reply-reaches-no-callback" if first == "error" else None,
                               {"id": mid, "first_reply": first, "first_reply_during_op": first_at,
                                "expected": want, "observed": got}))
@@ -493,6 +499,36 @@ def random_content(R, rng, history):
     return out
 
 
+def systematic_ping(R):
+    """the library's keep-alive ping (issued like YowPingThread: waitPong(id), sendIq) and an application ping
+    outstanding together: both request orders x both reply orders x {result, error}^2 x {then the replays};
+    one of the two left unanswered; two keep-alives; the application ping answered from inside its own send"""
+    hs = []
+    L, A = ["lib", "libping"], ["app", "ping", 1, 1]
+    for reqs, (il, ia) in (([L, A], (1, 2)), ([A, L], (2, 1))):
+        for tl in ("result", "error"):
+            for ta in ("result", "error"):
+                dl_, da = ["dlv", il, tl, "plain"], ["dlv", ia, ta, "plain"]
+                for first, second in ((da, dl_), (dl_, da)):
+                    hs.append(reqs + [first, second])
+                    hs.append(reqs + [first, second, first, second])                 # then the replays
+                    hs.append(reqs + [first, first, second, second])
+                hs.append(reqs + [da, da])                                            # keep-alive never answered
+                hs.append(reqs + [dl_, dl_])                                          # application ping never answered
+        for ta in ("result", "error"):
+            # two keep-alives outstanding (the second waitPong reports a ping timeout), application ping in between
+            hs.append([L] + reqs + [["dlv", 1 + ia, ta, "plain"], ["dlv", 1, "result", "plain"],
+                                    ["dlv", 1 + il, "result", "plain"], ["dlv", 1 + ia, ta, "plain"]])
+    # the application ping answered while it is still being handed down, keep-alive outstanding
+    for ta in ("result", "error"):
+        hs.append([L, with_sync(R, A + [0, 0, 0], [[OWN, ta, "plain"]]), ["dlv", 2, ta, "plain"], ["dlv", 1, "result", "plain"]])
+        hs.append([L, with_sync(R, A + [0, 0, 0], [[1, "result", "plain"], [OWN, ta, "plain"]])])
+    # other application requests through other layers are not affected by an outstanding keep-alive
+    for k in ("lastseen", "glist", "sync"):
+        hs.append([L, ["app", k, 1, 1], ["dlv", 2, "result", "plain"], ["dlv", 1, "result", "plain"], ["dlv", 2, "result", "plain"]])
+    return [well_shaped(R, [list(o) for o in h]) for h in hs]
+
+
 def systematic_sync(R):
     """every request kind x {result, error} delivered from inside the request's own send, x what follows"""
     hs = []
@@ -699,6 +735,15 @@ def table_summary(R, tab):
             "all_routed": bool(tab[10])}
 
 
+def shape_op(R, o):
+    """an op with the request kind and the retry policy masked (for reporting each minimal history once)"""
+    if o[0] == "app":
+        return ["app", "*"] + list(o[2:4]) + [R.op_sync(o)]
+    if o[0] == "lib":
+        return ["lib", "*", R.op_sync(o)]
+    return o
+
+
 def known_open(ctx, key):
     return ctx.known_match(key) if key is not None else None
 
@@ -727,9 +772,11 @@ def run(ctx):
                                       "register_before_send": info["register_before_send"],
                                       "register_before_send_iface": info["register_before_send_iface"]}
         for k in ("registry_flags_protocol", "registry_flags_interface", "register_before_send_protocol",
-                  "register_before_send_interface"):
+                  "register_before_send_interface", "iq_layer_callbacks"):
             if k in info:
                 ctx.coverage["translator"][k] = info[k]
+        if info.get("tie_broken"):   # the table is the real one (model usable), but the source deviates
+            ctx.ties["translator:c08_table"] = "broken: %s" % info["tie_broken"]
     except c08_table.TranslateError as e:
         ctx.ties["translator:c08_table"] = "broken: %s" % e
     ctx.prove()
@@ -744,6 +791,9 @@ def run(ctx):
         ctx.coverage["generated_table"] = table_summary(R, model.call("run_table", []))
 
     cases = [("corpus:" + name, h) for name, h in corpus(R)]
+    # first of the generated families: if the iq layer's callbacks deviate (translator tie), the concrete history
+    # is found before anything else is reported
+    cases += [("systematic-ping", h) for h in systematic_ping(R)]
     cases += [("systematic", h) for h in systematic(R)]
     cases += [("systematic-sync", h) for h in systematic_sync(R)]
     nrand = 3000 if ctx.tier == "quick" else 40000
@@ -830,7 +880,7 @@ def run(ctx):
                 si = run_impl(R, small, reader_thread=src.endswith("-2thread"))
                 sf = [x for x in oracle(R, small, si) if x[0] == name and x[1] == fkey]
                 shape = (name, src.endswith("-2thread"),
-                         json.dumps([[o[0], "*"] + list(o[2:]) if o[0] in ("app", "lib") else o for o in small]))
+                         json.dumps([shape_op(R, o) for o in small]))
                 # (the same minimal history for another request kind is reported once)
                 if shape not in reported_shapes or known_open(ctx, fkey) is not None:
                     reported_shapes.add(shape)
@@ -850,7 +900,7 @@ def run(ctx):
                     r = model.call("run_hist", [enc_op(R, o) for o in c])
                     return dec_model(R, r) != run_impl(R, c, reader_thread=src.endswith("-2thread"))
                 small = shrink(R, h, differs)
-                cshape = json.dumps([[o[0], "*"] + list(o[2:]) if o[0] in ("app", "lib") else o for o in small])
+                cshape = json.dumps([shape_op(R, o) for o in small])
                 if cshape not in reported_shapes:   # (once per minimal history, whatever the request kind)
                     reported_shapes.add(cshape)
                     sm = dec_model(R, model.call("run_hist", [enc_op(R, o) for o in small]))
